@@ -68,11 +68,16 @@ def run(ctx, replay=None):
         kernlib.gen_validate(ctx, 1200, KINDS, plan_kinds=dict(PLAN, rununtil=6), max_plan=6, label="generated-plans-float-instants",
                              **{"float": kernlib.FLOAT})
     else:
-        kernlib.mc_replay(ctx, "KernelMC_c03.cfg", {"MaxPlan = 4": "MaxPlan = 5"}, label="KernelMC/c03 plan5")
+        kernlib.mc_replay(ctx, "KernelMC_c03.cfg", label="KernelMC/c03 2x2 plan4")
+        kernlib.mc_replay(ctx, "KernelMC_c03.cfg", {"MaxPlan = 4": "MaxPlan = 5"}, label="KernelMC/c03 plan5", limit=300000)
         # liveness under weak fairness: every run()/step() call returns or raises, every plan completes
         ctx.mc("KernelMC", kernlib.cfg_text("KernelMC_c03live.cfg"), "kernel", label="KernelMC/c03 liveness (Returns, PlanCompletes)",
                timeout=3000, coverage=False)
-        kernlib.mc_replay(ctx, "KernelMC_c03.cfg", {"MaxOps = 2": "MaxOps = 3", "MaxEv = 8": "MaxEv = 8"}, label="KernelMC/c03 2x3")
+        kernlib.mc_replay(ctx, "KernelMC_c03.cfg", {"MaxOps = 2": "MaxOps = 3", "MaxPlan = 4": "MaxPlan = 3"}, label="KernelMC/c03 2x3 plan3",
+                          limit=300000)
+        kernlib.mc_replay(ctx, "KernelMC_c03.cfg", {"MaxProc = 2": "MaxProc = 3", "MaxOps = 2": "MaxOps = 3", "MaxPlan = 4": "MaxPlan = 7",
+                                                   "MaxEv = 8": "MaxEv = 20", "UntilTimes = {1, 2}": "UntilTimes = {1, 2, 3}"},
+                          label="KernelMC/c03 simulate 3x3 plan7", simulate=4000, depth=500)
         tr, _ = kernlib.gen_validate(ctx, 15000, KINDS, plan_kinds=PLAN, max_plan=7, label="generated-plans")
         kernlib.gen_validate(ctx, 15000, KINDS, plan_kinds=dict(PLAN, rununtil=6), max_plan=7, label="generated-plans-float-instants",
                              **{"float": kernlib.FLOAT})
